@@ -580,15 +580,19 @@ pub fn drive_enc(spec: &EncSpec, mode: EncMode, source: &mut dyn OpSource, mut p
                         }
                         i
                     }
-                    Err(_) => {
+                    Err(ins) => {
                         if spec.form16 {
+                            // legal for the API (the rest of the pair is then an unpaired low
+                            // surrogate), wrong by C04; the run goes on so that the other
+                            // properties' oracles (C12 round trip) see the consequence too
                             run.viols.push(viol("C04", "surrogate-pair-split-by-read", format!("call {} (cap {}): read {} ends between the halves of a surrogate pair ({})", run.calls.len(), cap, c.read, c.res.name())));
+                            ins - 1
                         } else {
                             run.viols.push(viol("C06", "read-splits-character", format!("call {}: read {} ends inside a UTF-8 sequence", run.calls.len(), c.read)));
+                            run.aborted = Some("read inside a character".into());
+                            run.ops = source.recorded().to_vec();
+                            return run;
                         }
-                        run.aborted = Some("read inside a character".into());
-                        run.ops = source.recorded().to_vec();
-                        return run;
                     }
                 };
                 // C07
